@@ -6,13 +6,14 @@
 //	[1 v]  Push(v) in a new actor (v != 0)          [2]  Pop() in a new actor
 //	[3 i]  step actor i from its gate to the next gate / its return
 //	[4]    drain: the controller pops until Pop returns 0 (bounded)
-//	[9 vs...] free stream (config 1): unparked goroutines push vs and pop concurrently, then drain
+//	[9 v]  free stream (config 1): v is one of the values of the stream
+//	[10]   the stream ran: unparked goroutines pushed those values and popped concurrently, then the controller drained
 //
 // observations: after 1/2/3 one code per actor: 1+site when parked at cqueue site 0..3, 5 Push returned,
-// 10+v Pop returned v;  after 4: z d1..dk (z=1: the last Pop returned 0);  after 9: sorted non-zero values popped+drained.
+// 10+v Pop returned v;  after 4: z d1..dk (z=1: the last Pop returned 0);  after 9: nothing;  after 10: sorted non-zero values popped+drained.
 //
 // LinkedList ("linkedlist") events: [1 v] Push [2 v] PushFront [3] Pop [4] Peek [5] PeekTail [6] IsEmpty [7] Reset
-// [8] drain [9 vs...] free stream; config: f elems... (f=1 free; elems = NewLinkedList arguments);
+// [8] drain [9 v] / [10] free stream; config: f elems... (f=1 free; elems = NewLinkedList arguments);
 // observations: [val flag] per call, z d1..dk for the drain, sorted popped+drained for the stream.
 package lifox
 
@@ -295,11 +296,7 @@ func runLifoRandom(t *testing.T, w *hist.W, h int) {
 
 func runLifoFixed(t *testing.T, w *hist.W, id string, cfg []uint64, evs [][]uint64) {
 	if len(cfg) > 0 && cfg[0] == 1 {
-		for _, ev := range evs {
-			if ev[0] == 9 {
-				runLifoFree(w, id, ev[1:], 4, 7)
-			}
-		}
+		runLifoFree(w, id, freeVals(evs), 4, 7)
 		return
 	}
 	synctest.Test(t, func(t *testing.T) {
@@ -388,10 +385,24 @@ func runLifoFree(w *hist.W, id string, vals []uint64, ngo int, yield uint64) {
 		all = append(all, v)
 	}
 	w.Begin(id, []uint64{1})
-	w.Step(append([]uint64{9}, sorted(vals)...), sorted(all))
+	for _, v := range sorted(vals) {
+		w.Step([]uint64{9, v}, nil)
+	}
+	w.Step([]uint64{10}, sorted(all))
 	w.Count("lifo.free.histories", 1)
 	w.Count("lifo.free.pushes", len(vals))
 	w.Count("lifo.free.concurrent_pops", npop)
+}
+
+// freeVals collects the values of the [9 v] events of a free-stream history.
+func freeVals(evs [][]uint64) []uint64 {
+	var vals []uint64
+	for _, ev := range evs {
+		if ev[0] == 9 && len(ev) == 2 {
+			vals = append(vals, ev[1])
+		}
+	}
+	return vals
 }
 
 func freeValues(r *rand.Rand, n int) []uint64 {
@@ -581,11 +592,7 @@ func runLLRandom(w *hist.W, h int) {
 
 func runLLFixed(w *hist.W, id string, cfg []uint64, evs [][]uint64) {
 	if len(cfg) > 0 && cfg[0] == 1 {
-		for _, ev := range evs {
-			if ev[0] == 9 {
-				runLLFree(w, id, cfg, ev[1:], 4)
-			}
-		}
+		runLLFree(w, id, cfg, freeVals(evs), 4)
 		return
 	}
 	if len(cfg) == 0 {
@@ -663,7 +670,10 @@ func runLLFree(w *hist.W, id string, cfg, vals []uint64, ngo int) {
 		all = append(all, v)
 	}
 	w.Begin(id, append([]uint64{1}, elems...))
-	w.Step(append([]uint64{9}, sorted(vals)...), sorted(all))
+	for _, v := range sorted(vals) {
+		w.Step([]uint64{9, v}, nil)
+	}
+	w.Step([]uint64{10}, sorted(all))
 	w.Count("ll.free.histories", 1)
 	w.Count("ll.free.pushes", len(vals))
 	w.Count("ll.free.concurrent_pops", npop)
